@@ -17,6 +17,7 @@ import (
 	"bytes"
 	"flag"
 	"fmt"
+	"os"
 	"runtime"
 
 	"github.com/cockroachdb/pebble/v2/vfs"
@@ -28,23 +29,24 @@ import (
 )
 
 type stats struct {
-	Cases        int            `json:"cases"`
-	Distinct     int            `json:"distinct_nontrivial"`
-	Blocks       int            `json:"blocks"`
-	Txs          int            `json:"transactions_included"`
-	Dropped      int            `json:"transactions_dropped_by_proposer"`
-	Restarts     int            `json:"restarts"`
-	Specul       int            `json:"discarded_speculative_validations"`
-	Archive      int            `json:"heights_revalidated_from_archive"`
-	Unusual      int            `json:"unusually_encoded_transactions_offered"`
-	VoteFlips    int            `json:"vote_window_closed_between_caching_and_proposing"`
-	Followed     int            `json:"heights_followed_in_sync_mode_from_the_tip"`
-	ForgedTwice  int            `json:"forged_signature_transactions_offered_twice"`
-	CertVariants int            `json:"nodes_given_a_commit_certificate_with_another_signer_set"`
-	Kinds        map[string]int `json:"tx_kinds_offered"`
-	Procs        map[string]int `json:"gomaxprocs"`
-	BigBlocks    int            `json:"blocks_with_16_or_more_state_ops"`
-	Samples      []string       `json:"samples"`
+	Cases            int            `json:"cases"`
+	Distinct         int            `json:"distinct_nontrivial"`
+	Blocks           int            `json:"blocks"`
+	Txs              int            `json:"transactions_included"`
+	Dropped          int            `json:"transactions_dropped_by_proposer"`
+	Restarts         int            `json:"restarts"`
+	Specul           int            `json:"discarded_speculative_validations"`
+	Archive          int            `json:"heights_revalidated_from_archive"`
+	Unusual          int            `json:"unusually_encoded_transactions_offered"`
+	VoteFlips        int            `json:"vote_window_closed_between_caching_and_proposing"`
+	SmallBlockChains int            `json:"chains_with_a_block_size_of_a_few_transactions"`
+	Followed         int            `json:"heights_followed_in_sync_mode_from_the_tip"`
+	ForgedTwice      int            `json:"forged_signature_transactions_offered_twice"`
+	CertVariants     int            `json:"nodes_given_a_commit_certificate_with_another_signer_set"`
+	Kinds            map[string]int `json:"tx_kinds_offered"`
+	Procs            map[string]int `json:"gomaxprocs"`
+	BigBlocks        int            `json:"blocks_with_16_or_more_state_ops"`
+	Samples          []string       `json:"samples"`
 }
 
 var st = stats{Kinds: map[string]int{}, Procs: map[string]int{}}
@@ -72,6 +74,8 @@ func reportOf(n *sim.CNode, h uint64) report {
 	return report{blk.BlockHeader.Hash, blk.BlockHeader.StateRoot, rh, nil}
 }
 
+var smallBlocks = os.Getenv("VERIF_SMALL_BLOCKS") != "0"
+
 func main() {
 	nChains := flag.Int("chains", 3, "independent chains")
 	nBlocks := flag.Int("blocks", 12, "blocks per chain")
@@ -89,6 +93,12 @@ func main() {
 		g := &sim.GenesisSpec{}
 		p := fsm.DefaultParams()
 		p.Validator.UnstakingBlocks = 2
+		if smallBlocks && c%3 == 1 {
+			// a block size that a handful of transactions exceed: the proposer executes more than fits ("oversize": executed to keep
+			// the mempool tidy, not included) - what it did with them must not show in the block it proposes
+			p.Consensus.BlockSize = lib.MaxBlockHeaderSize + 1200
+			st.SmallBlockChains++
+		}
 		g.Params = p
 		for i := 0; i < nv; i++ {
 			g.Validators = append(g.Validators, sim.StdValidator(i, 1000000+uint64(i)))
